@@ -79,7 +79,7 @@ class StructDef:
                 at += "@size(%d) " % m["size"]
             if m.get("align"):
                 at += "@align(%d) " % m["align"]
-            ms.append("    %s%s: %s," % (at, m["name"], wgsl(m["ty"])))
+            ms.append("    %s%s: %s," % (at, m["name"], m.get("alias") or wgsl(m["ty"])))
         return "struct %s {\n%s\n}" % (self.name, "\n".join(ms))
 
     def data_members(self):
